@@ -12,10 +12,15 @@
 (* cells through the object's header exactly as String()/Authorize do.      *)
 (* Immutable: for every live object Obs = want, after every operation (C08).*)
 (* DeepClone = FALSE is SymbolTable.Clone of the pinned tree (header copy). *)
+(* The list of signed blocks of a token (container.Blocks) is a slice too: *)
+(* CopyBlockList = TRUE is Append's append([]*SignedBlock{}, parent...)    *)
+(* followed by append; FALSE appends to the parent's list in place, which  *)
+(* lets two children of one parent overwrite each other's last block.      *)
 (***************************************************************************)
 EXTENDS Integers, Sequences, FiniteSets, TLC, Json
 
-CONSTANTS DeepClone, NSyms, MaxToks, MaxBBs, MaxAdds, MaxOps,
+CONSTANTS DeepClone, CopyBlockList, NSyms, MaxToks, MaxBBs, MaxAdds, MaxOps,
+          Lite,    \* TRUE: only builder / append operations (used by the negative block-list model to reach depth)
           Spares   \* spare capacities the runtime may leave when an array grows ({0, 1} in model checking)
 
 VARIABLES arrays,   \* sequence of backing arrays (sequences of symbols, 0 = unused cell)
@@ -54,7 +59,7 @@ Obs(A, o) == [i \in 1..Len(o.refs) |-> Cell(A, o.sl, o.refs[i])]
 Flat(ss) == LET RECURSIVE f(_) f(x) == IF x = <<>> THEN <<>> ELSE Head(x) \o f(Tail(x)) IN f(ss)
 
 Init == /\ arrays = << <<>> >>                      \* array 1: the (empty) default table
-        /\ toks = << [sl |-> Slice(1, 0), refs |-> <<>>, want |-> <<>>, owns |-> << <<>> >>, sealed |-> FALSE] >>   \* a root token without own symbols
+        /\ toks = << [sl |-> Slice(1, 0), refs |-> <<>>, want |-> <<>>, owns |-> << <<>> >>, sealed |-> FALSE, bl |-> Slice(1, 0)] >>   \* a root token without own symbols
         /\ bbs = <<>> /\ blks = <<>> /\ hist = <<>>
 
 Log(e) == hist' = Append(hist, e)
@@ -84,13 +89,19 @@ BuildBlock(b) ==
           /\ bbs' = [bbs EXCEPT ![b].live = FALSE]
     /\ Log([op |-> "build", b |-> b]) /\ UNCHANGED <<arrays, toks>>
 
+\* the child's list of signed blocks: a fresh copy plus the new block, or an in-place append to the parent's list
+BlockListSet(A, bl, k) ==
+    IF CopyBlockList \/ bl.n >= Cap(A, bl)
+    THEN {[A |-> Append(A, [i \in 1..(bl.n + 1 + spare) |-> IF i <= bl.n THEN Cell(A, bl, i) ELSE IF i = bl.n + 1 THEN k ELSE 0]),
+           bl |-> Slice(Len(A) + 1, bl.n + 1)] : spare \in Spares}
+    ELSE {[A |-> [A EXCEPT ![bl.a][bl.n + 1] = k], bl |-> Slice(bl.a, bl.n + 1)]}                  \* shared with every sibling!
 AppendBlk(k) ==
     /\ Len(toks) < MaxToks /\ ~toks[blks[k].tok].sealed
     /\ LET t == blks[k].tok IN
-       \E c \in CloneSet(arrays, toks[t].sl) : \E e \in ExtendSet(c.A, c.sl, blks[k].own) :
-          /\ arrays' = e.A
+       \E c \in CloneSet(arrays, toks[t].sl) : \E e \in ExtendSet(c.A, c.sl, blks[k].own) : \E b \in BlockListSet(e.A, toks[t].bl, k) :
+          /\ arrays' = b.A
           /\ toks' = Append(toks, [sl |-> e.sl, refs |-> toks[t].refs \o blks[k].refs, want |-> toks[t].want \o blks[k].want,
-                                   owns |-> Append(toks[t].owns, blks[k].own), sealed |-> FALSE])
+                                   owns |-> Append(toks[t].owns, blks[k].own), sealed |-> FALSE, bl |-> b.bl])
     /\ Log([op |-> "append", k |-> k]) /\ UNCHANGED <<bbs, blks>>
 
 GetBlockID(t, s) ==
@@ -100,7 +111,9 @@ GetBlockID(t, s) ==
 Seal(t) ==
     /\ Len(toks) < MaxToks /\ ~toks[t].sealed
     /\ \E c \in CloneSet(arrays, toks[t].sl) :
-          arrays' = c.A /\ toks' = Append(toks, [toks[t] EXCEPT !.sl = c.sl, !.sealed = TRUE])
+          LET bl == toks[t].bl
+              A2 == Append(c.A, [i \in 1..bl.n |-> Cell(arrays, bl, i)])        \* Seal always copies the block list
+          IN arrays' = A2 /\ toks' = Append(toks, [toks[t] EXCEPT !.sl = c.sl, !.sealed = TRUE, !.bl = Slice(Len(c.A) + 1, bl.n)])
     /\ Log([op |-> "seal", t |-> t]) /\ UNCHANGED <<bbs, blks>>
 
 \* Unmarshal(Serialize(t)): a fresh table built from what the wire carries (each block's declared symbols)
@@ -108,11 +121,15 @@ Reload(t) ==
     /\ Len(toks) < MaxToks
     /\ LET flat == Flat(toks[t].owns) IN
        \E spare \in Spares :
-          /\ arrays' = Append(arrays, [i \in 1..(Len(flat) + spare) |-> IF i <= Len(flat) THEN flat[i] ELSE 0])
-          /\ toks' = Append(toks, [toks[t] EXCEPT !.sl = Slice(Len(arrays) + 1, Len(flat))])
+          LET A1 == Append(arrays, [i \in 1..(Len(flat) + spare) |-> IF i <= Len(flat) THEN flat[i] ELSE 0])
+              bl == toks[t].bl
+              \* the decoded list of signed blocks: what the parent's list reads NOW, in a fresh array of runtime-chosen capacity
+              A2 == Append(A1, [i \in 1..(bl.n + spare) |-> IF i <= bl.n THEN Cell(arrays, bl, i) ELSE 0])
+          IN /\ arrays' = A2
+             /\ toks' = Append(toks, [toks[t] EXCEPT !.sl = Slice(Len(arrays) + 1, Len(flat)), !.bl = Slice(Len(arrays) + 2, bl.n)])
     /\ Log([op |-> "reload", t |-> t]) /\ UNCHANGED <<bbs, blks>>
 
-Step == \/ \E t \in 1..Len(toks) : CreateBlock(t) \/ Seal(t) \/ Reload(t) \/ \E s \in 1..NSyms : GetBlockID(t, s)
+Step == \/ \E t \in 1..Len(toks) : CreateBlock(t) \/ (~Lite /\ (Seal(t) \/ Reload(t) \/ \E s \in 1..NSyms : GetBlockID(t, s)))
         \/ \E b \in 1..Len(bbs) : BuildBlock(b) \/ \E s \in 1..NSyms : AddFact(b, s)
         \/ \E k \in 1..Len(blks) : AppendBlk(k)
 Next == /\ Len(hist) < MaxOps
@@ -122,8 +139,11 @@ Spec == Init /\ [][Next]_vars
 -----------------------------------------------------------------------------
 \* C08: every token, and every built block, still contains exactly what its own caller put in
 TokensIntact == \A t \in 1..Len(toks) : Obs(arrays, toks[t]) = toks[t].want
+\* what a token serializes: the declared symbols of the blocks its block list points to (authority first)
+WireOf(A, t) == << <<>> >> \o [i \in 1..t.bl.n |-> blks[Cell(A, t.bl, i)].own]
+WireIntact == \A t \in 1..Len(toks) : WireOf(arrays, toks[t]) = toks[t].owns
 BlocksIntact == \A k \in 1..Len(blks) : blks[k].own = blks[k].wantOwn
-Immutable == TokensIntact /\ BlocksIntact
+Immutable == TokensIntact /\ BlocksIntact /\ WireIntact
 \* the wire content of a token never changes once it exists
 WireStable == [][\A t \in 1..Len(toks) : toks'[t].owns = toks[t].owns]_vars
 View == <<arrays, toks, bbs, blks>>
